@@ -188,6 +188,8 @@ def build_cases(tier):
     strs = [""]
     for ln in range(1, L + 1):
         strs += ["".join(t) for t in itertools.product(SIGMA, repeat=ln)]
+    # longer names with leading / trailing / inner blanks (long enough for compact mode to print the number)
+    strs += [" Bank", "Bank ", " Display Row ", "  two  ", "Row 1 ", " x", "x ", "\tTab", "Tab\t", "a  b  c", "     ", " (1) ", "Name With Blank ", " é "]
     strs = [s for s in strs if s != "" and '")' not in s]  # a name containing '")' cannot be written inside HASH("...") in IC10 itself
     for j in range(0, len(strs), 40):
         chunk = strs[j : j + 40]
